@@ -18,7 +18,8 @@ fi
 if [ "${SEED_TESTS:-0}" = 1 ]; then
   (cd $wt && go build ./... && go test -vet=off -count=1 ./... 2>&1 | grep -v "^ok\|no test files" | head -5; echo "SEED tests exit=${PIPESTATUS[0]}")
 fi
-cd /verif
+root=$(cd "$(dirname "$0")/.." && pwd)
+cd $root
 for p in "$@"; do
   out=$(VERIF_NOSHRINK=1 ./bin/vcheck $p --tier quick --repo $wt 2>&1)
   rc=$?
